@@ -91,6 +91,21 @@ EmitPathFaults ==
        \/ (ps[1].p = "root" /\ Out(ParseErr(t \o <<63, 40, 38, 38, 64, 61, 61, 49, 41>>)))  \* ?(&&@==1)
        \/ (ps[1].p = "root" /\ Out(ParseErr(t \o <<46>>))) \/ (ps[1].p = "root" /\ Out(ParseErr(t \o <<46, 46, 97>>)))
 
+\* a stand-alone predicate speaks about the root only: `@` has no meaning there, however deep inside
+\* parentheses, && / || or exists( ) it is written
+\* (exists(@...) is accepted there by the implementation and evaluated with @ = $; the property is silent on it)
+CurConds == {c1, c2, EBin("or", c1, c2), EBin("and", c2, c3), EBin("gt", EPaths(<<Cur>>), EVal(PNum(u1))),
+             EBin("eq", EVal(PNum(u1)), EPaths(<<Cur, Dot(kb)>>))}
+RootCond == EBin("gt", EPaths(<<Root, Dot(ka)>>), EVal(PNum(u1)))
+Paren(t) == (<<40>> \o t) \o <<41>>
+EmitPredFaults ==
+  \E e \in CurConds, st \in {Plain, [ws |-> 1, kw |-> 0, quote |-> FALSE]} :
+    LET t == ExprText(e, st, LitFL, 0)
+        r == ExprText(RootCond, st, LitFL, 0)
+    IN \/ Out(ParseErr(t)) \/ Out(ParseErr(Paren(t))) \/ Out(ParseErr(Paren(Paren(t))))
+       \/ Out(ParseErr(ExprText(EBin("and", RootCond, e), st, LitFL, 0))) \/ Out(ParseErr(ExprText(EBin("or", e, RootCond), st, LitFL, 0)))
+       \/ Out(ParseErr(((r \o <<38, 38>>) \o Paren(t)))) \/ Out(ParseErr((Paren(t) \o <<124, 124>>) \o r))
+       \/ Out(ParseErr(((r \o <<32, 124, 124, 32>>) \o Paren((r \o <<38, 38>>) \o Paren(t)))))
 SoupBytes == {36, 46, 97, 91, 93, 34, 92, 63, 40, 41, 64, 61, 49, 32, 42, 123, 125, 44, 45, 117}
 EmitSoup == \E bs \in UNION {[1..k -> SoupBytes] : k \in 0..3} : Out(ParseAny("jp_parse", bs)) \/ Out(ParseAny("kp_parse", bs))
 EmitSoup2 == \E bs \in [1..2 -> {34, 92, 117, 123, 97, 48}], pre \in {<<36, 46>>, <<36, 91>>, <<123>>, <<36, 63, 40, 64, 61, 61>>} :
@@ -166,7 +181,7 @@ Init == stage = "start" /\ scr = [op |-> "none"]
 Next ==
   /\ stage = "start"
   /\ CASE Family = "paths" -> EmitPaths
-       [] Family = "pathfaults" -> EmitPathFaults
+       [] Family = "pathfaults" -> EmitPathFaults \/ EmitPredFaults
        [] Family = "soup" -> EmitSoup \/ EmitSoup2 \/ EmitOdd \/ EmitPrefixes \/ EmitAstral
        [] Family = "kp" -> EmitKp \/ EmitLatin
        [] Family = "kpfaults" -> EmitKpFaults
